@@ -68,3 +68,51 @@ Proof.
 Qed.
 
 End AbstractHash.
+
+(* ---- the statement of C02 without the no-collision hypothesis is false for the real hash ---- *)
+Definition full_statement (name_hash : bytes -> N) (P : params) : Prop :=
+  forall h st rs, run name_hash P init h = (st, rs) -> st <> Broken ->
+  exists l, read_attrs st = Some l /\ forall n, attr_get l n = sp_get (run_spec [] h rs) n.
+
+Lemma full_refuted_lookup3 : ~ full_statement lk3 (go_params 58).
+Proof.
+  intro F. pose proof lookup3_overwrite_wrong as W. cbv zeta in W.
+  destruct (run lk3 (go_params 58) init (hist_overwrite coll_a coll_b)) as [st rs] eqn:R.
+  destruct W as [ERS [SP [l [RD [AG _]]]]].
+  assert (NB : st <> Broken) by (intro E; subst st; discriminate).
+  destruct (F _ _ _ R NB) as [l' [RD' T]]. assert (l' = l) by congruence. subst l'.
+  specialize (T coll_a). rewrite AG, SP in T. discriminate.
+Qed.
+
+Lemma collision_refuted_lookup3 :
+  exists a b : bytes, a <> b /\ lk3 a = lk3 b /\
+    (* WriteAttribute(b) replaces the attribute a: both calls succeed, a is gone *)
+    (let h := hist_overwrite a b in
+     let '(st, rs) := run lk3 (go_params 58) init h in
+     rs = [ROk; ROk] /\ sp_get (run_spec [] h rs) a = Some big_value /\
+     exists l, read_attrs st = Some l /\ attr_get l a = None /\ List.length l = 1%nat) /\
+    (* DeleteAttribute(b), b never written, succeeds and deletes a *)
+    (let h := hist_delete a b in
+     let '(st, rs) := run lk3 (go_params 58) init h in
+     rs = [ROk; ROk] /\
+     snd (spec_delete (run_spec [] [OWrite a (Some big_value)] [ROk]) b) = RErr /\
+     read_attrs st = Some []).
+Proof.
+  exists coll_a, coll_b. destruct lookup3_collision as [NE EQ].
+  split; [exact NE|]. split; [exact EQ|]. split; [exact lookup3_overwrite_wrong | exact lookup3_delete_wrong].
+Qed.
+
+Lemma collision_refuted_abstract : forall name_hash : bytes -> N,
+  name_hash [97] = name_hash [98] ->
+  (let h := hist_overwrite [97] [98] in
+   let '(st, rs) := run name_hash (go_params 58) init h in
+   rs = [ROk; ROk] /\ sp_get (run_spec [] h rs) [97] = Some big_value /\
+   exists l, read_attrs st = Some l /\ attr_get l [97] = None /\ List.length l = 1%nat) /\
+  (let h := hist_delete [97] [98] in
+   let '(st, rs) := run name_hash (go_params 58) init h in
+   rs = [ROk; ROk] /\
+   snd (spec_delete (run_spec [] [OWrite [97] (Some big_value)] [ROk]) [98]) = RErr /\
+   read_attrs st = Some []).
+Proof.
+  intros f C. split; [exact (abstract_overwrite_wrong f C) | exact (abstract_delete_wrong f C)].
+Qed.
